@@ -179,7 +179,8 @@ let bus_case (args : string list) : string =
       let (hist, test) = split [] rest in
       let names = names_of (hist @ [test]) in
       let v = { known = []; nclients = 0; calls = [] } in
-      let b = ref (init_bus (n_of_int (List.nth lim 0)) (n_of_int (List.nth lim 1)) (n_of_int (List.nth lim 2))) in
+      let maxconns = if List.length lim > 3 then List.nth lim 3 else 256 in
+      let b = ref (init_bus_full (n_of_int (List.nth lim 0)) (n_of_int (List.nth lim 1)) (n_of_int (List.nth lim 2)) (n_of_int maxconns)) in
       let stopped = ref false in
       List.iter (fun t ->
         if not !stopped then begin
@@ -212,3 +213,57 @@ let bus_case (args : string list) : string =
 
 let handlers : (string, string list -> string) Hashtbl.t = Hashtbl.create 8
 let () = Hashtbl.replace handlers "bus" bus_case
+
+(* ---- DBusString leg: str <cap> <op> ... -- <op>  (same syntax as harness/c/oom_h.c) ---------------- *)
+let rec nat_of_int i = if i <= 0 then O else S (nat_of_int (i - 1))
+let rec int_of_nat = function O -> 0 | S k -> 1 + int_of_nat k
+let junk_hex (l : n list) : string =
+  if l = [] then "-" else String.concat "" (List.map (fun b -> let v = int_of_n b in if v > 255 then "xx" else Printf.sprintf "%02x" v) l)
+
+let parse_sop (t : string) : sop =
+  let f = String.split_on_char ',' (String.sub t 1 (String.length t - 1)) in
+  let nt s = nat_of_int (int_of_string s) in
+  match t.[0], f with
+  | 'L', [n] -> OLengthen (nt n)
+  | 'H', [n] -> OShorten (nt n)
+  | 'T', [n] -> OSetLength (nt n)
+  | 'I', [a; n; b] -> OInsertBytes (nt a, nt n, ni b)
+  | 'B', [a; b] -> OInsertByte (nt a, ni b)
+  | 'A', [a] -> OAlignLength (nt a)
+  | 'N', [a; h] -> OInsertAligned (nt a, bytes_of_hex h)
+  | 'G', [a; al] -> OInsertAlignment (nt a, nt al)
+  | 'S', [n] -> OAllocSpace (nt n)
+  | 'P', [h] -> OAppend (bytes_of_hex h)
+  | 'Y', [b] -> OAppendByte (ni b)
+  | 'D', [a; l] -> ODelete (nt a, nt l)
+  | 'C', [h; st; l; a] -> OCopyLen (bytes_of_hex h, nt st, nt l, nt a)
+  | 'R', [h; st; l; a; rl] -> OReplaceLen (bytes_of_hex h, nt st, nt l, nt a, nt rl)
+  | _ -> failwith ("bad str op " ^ t)
+
+let str_case (args : string list) : string =
+  match args with
+  | cap :: rest ->
+      let rec split acc = function "--" :: [t] -> (List.rev acc, t) | x :: r -> split (x :: acc) r | [] -> failwith "no -- <op>" in
+      let (hist, test) = split [] rest in
+      let exact = true in                                    (* the checked build: embedded tests + assertions *)
+      let s0 = { d_bytes = []; d_alloc = nat_of_int (int_of_string cap + 8) } in
+      let s = List.fold_left (fun s t ->
+          let op = parse_sop t in
+          if not (sop_pre s op) then failwith "precondition of a history op";
+          match run_sop exact no_fail N0 s op with
+          | ((true, s'), _) -> s'
+          | ((false, _), _) -> failwith "history op failed") s0 hist in
+      let op = parse_sop test in
+      if not (sop_pre s op) then "?precondition" else begin
+        let show failed ((ok, s'), _) =
+          Printf.sprintf "f%d|%d|%d|%d|%s" (if failed then 1 else 0) (if ok then 1 else 0) (List.length s'.d_bytes) (int_of_nat s'.d_alloc) (junk_hex s'.d_bytes) in
+        (* how many allocations does the unfailed operation make? *)
+        let ((_, _), n) = run_sop exact no_fail N0 s op in
+        let n = int_of_n n in
+        let outs = List.init (n + 1) (fun k -> if k < n then show true (run_sop exact (fail_at (n_of_int k)) N0 s op) else show false (run_sop exact no_fail N0 s op)) in
+        Printf.sprintf "base=%d|%d|%s ## " (List.length s.d_bytes) (int_of_nat s.d_alloc) (junk_hex s.d_bytes)
+        ^ String.concat " ## " (dedupe outs) ^ " ## end allocs=" ^ string_of_int n
+      end
+  | _ -> "?bad-args"
+
+let () = Hashtbl.replace handlers "str" str_case
